@@ -142,6 +142,53 @@ def graph_parts(pid: str, tier: str):
     return parts
 
 
+FRONT_FUNCS = [
+    "tawazi._dag.constructor.make_dag", "tawazi._dag.constructor.get_args_and_default_args", "tawazi.node.node.LazyExecNode.__call__",
+    "tawazi.node.node.make_args", "tawazi.node.node.make_kwargs", "tawazi.node.node.make_active", "tawazi.node.node.make_default_value_uxn",
+    "tawazi.node.node.count_occurrences", "tawazi.node.helpers._lazy_xn_id", "tawazi.node.node.ExecNode.execute", "tawazi.node.uxn.UsageExecNode.__getitem__",
+    "tawazi.node.uxn.UsageExecNode.result", "tawazi.node.functions.wrap_in_uxns", "tawazi.node.extend (operator nodes)", "tawazi._object_helpers.and_/or_/not_",
+    "tawazi._dag.dag.DAG.__call__ (execution and sub-DAG description)", "tawazi._dag.dag.construct_subdag_arg_uxns", "tawazi._dag.dag.AsyncDAG.__call__",
+    "tawazi._dag.dag.BaseDAG.config_from_dict/yaml/json", "tawazi._dag.helpers.async_execute", "tawazi._dag.helpers._xn_active_in_call",
+    "tawazi._dag.helpers.get_return_values", "tawazi._dag.helpers.extend_results_with_args",
+]
+
+
+def dataflow_parts(pid: str, tier: str):
+    from harness.dataflow import DCfg, run_dataflow
+    from harness.sched import Cfg, run_sched
+
+    P = functools.partial
+    q = tier == "quick"
+    parts = []
+
+    def mk(name, cfg, require, budget=900, split=7):
+        b = {"statements": len(cfg.stmts), "deviation budget": cfg.budget, "nesting depth": cfg.depth, "flavours": cfg.flavours, "config routes": cfg.config,
+             "family": "all programs that differ from the base program in at most <budget> holes (function, argument source/form, second argument, keyword passing, "
+                       "activation flag form, operator, nested DAG signature / shape / supplied arguments, return shape, defaulted DAG parameter supplied or not, flavour, configuration)",
+             "inputs": "symbolic values (uninterpreted sort), node functions uninterpreted"}
+        parts.append(Part(name, P(run_dataflow, cfg), b, budget_s=budget, split_depth=split, require=require, functions=FRONT_FUNCS))
+
+    if pid == "C01":
+        mk("programs-2stmts", DCfg(focus="C01", budget=3, flavours="sa", config=True), ["w_call", "w_op", "w_sub", "w_flag", "w_deactivated"], 900, 9)
+        parts.append(Part("schedule-independence-N3", P(run_sched, Cfg(N=3, resources="tm" if q else "tma", activation=True, kwargs=True, routes="d" if q else "dc", sym_prio=not q, monitors=("C01",))),
+                          {"N": 3, "what": "returned tuple equals the plain evaluation on every schedule / configuration"}, 900, 7, ["w_returned", "w_parallel"], SCHED_FUNCS))
+        if not q:
+            mk("programs-3stmts", DCfg(stmts=("s", "s", "s"), focus="C01", budget=3, flavours="sa", config=True), ["w_call", "w_op", "w_sub"], 1800)
+            mk("programs-2stmts-b4", DCfg(focus="C01", budget=4, flavours="s"), ["w_call", "w_op", "w_sub"], 1800)
+    elif pid == "C10":
+        mk("flag-forms", DCfg(focus="C10", budget=3), ["w_flag", "w_flag_indexed", "w_flag_on_nested", "w_deactivated"])
+        if not q:
+            mk("flag-forms-3stmts", DCfg(stmts=("s", "s", "s"), focus="C10", budget=3, depth=2), ["w_flag", "w_flag_on_nested"], 1800)
+            mk("flag-forms-b4", DCfg(focus="C10", budget=4), ["w_flag", "w_flag_on_nested"], 1800)
+    elif pid == "C20":
+        mk("nesting-depth2", DCfg(focus="C20", depth=2, budget=2), ["w_sub", "w_flag_on_nested"])
+        mk("nesting-depth3", DCfg(focus="C20", depth=3, budget=1), ["w_sub"])
+        if not q:
+            mk("nesting-depth2-b3", DCfg(focus="C20", depth=2, budget=3), ["w_sub"], 1800)
+            mk("nesting-depth3-b2", DCfg(focus="C20", depth=3, budget=2), ["w_sub"], 1800)
+    return parts
+
+
 def dataclass_bounds(cfg):
     import dataclasses
 
@@ -175,6 +222,11 @@ def main(argv):
         rule = ("paths of the symbolic execution of the real graph algebra on programs built through the public API: shape x labeling x selection x alias form x "
                 "debug placement are solver-chosen decisions, priorities and node values symbolic; distinct = distinct (shape, labeling, selection, placement)")
         return run_check(pid, tier, "model_checking", graph_parts(pid, tier), REAL_ENV_ASSUMPTIONS, rule)
+    if pid in ("C01", "C10", "C20"):
+        rule = ("generated describing functions: every program within the deviation budget of the base program is built with @xn/@dag and called with symbolic inputs; "
+                "the same describing code evaluated with the plain callables is the reference; z3 proves result equality for all inputs and node functions; "
+                "distinct = distinct program spec")
+        return run_check(pid, tier, "translation_validation", dataflow_parts(pid, tier), REAL_ENV_ASSUMPTIONS + ENV_ASSUMPTIONS[:3], rule)
     print("HARNESS-ERROR unknown property %s" % pid)
     return 2
 
